@@ -140,6 +140,62 @@ def h_unambiguous(ci: int, d0: int, d1: int, k: int, v: str) -> bool:
     return fin(True, succ is not None)
 
 
+# --------------------------------------------------------------------------- fallback: token text from a finite pool
+# When the predicates do something with the token text that the solver cannot decide on an unbounded string (set membership, regular expressions, lower()),
+# the same two conditions are decided with the text drawn from a pool: every literal that any predicate of the language mentions plus generic members.
+def _literals(pred, acc):
+    for k, v in sorted(getattr(pred, "__dict__", {}).items()):
+        if isinstance(v, str) and v not in acc:
+            acc.append(v)
+        elif hasattr(v, "accept"):
+            _literals(v, acc)
+        elif isinstance(v, (list, tuple)):
+            for x in v:
+                if hasattr(x, "accept"):
+                    _literals(x, acc)
+    return acc
+
+
+POOL = []
+for _a in AUTOMATA:
+    for _p in _a["preds"]:
+        _literals(_p, POOL)
+POOL = sorted(POOL) + ["x", "1", "", "X"]
+
+
+def _pool(vi):
+    for i in range(len(POOL)):
+        if vi == i:
+            return POOL[i]
+    return POOL[0]
+
+
+def h_closed_pool(ci: int, d0: int, d1: int, k: int, vi: int) -> bool:
+    """
+    pre: _pre(ci, d0, d1, k) and 0 <= vi < len(POOL)
+    post: _
+    """
+    try:
+        succ = _step(ci, d0, d1, k, _pool(vi))
+    except ValueError:
+        return fin(True, False)
+    return fin(succ is None or succ in KNOWN, succ is not None)
+
+
+def h_unambiguous_pool(ci: int, d0: int, d1: int, k: int, vi: int) -> bool:
+    """
+    pre: _pre_u(ci, d0, d1, k, _pool(vi)) and 0 <= vi < len(POOL)
+    post: _
+    """
+    try:
+        succ = _step(ci, d0, d1, k, _pool(vi))
+    except ValueError as e:
+        if "Multiple transitions" in str(e):
+            return False
+        raise
+    return fin(True, succ is not None)
+
+
 # --------------------------------------------------------------------------- fixpoint driver (called through `xh_worker call`)
 def _analyze(fn, cond_timeout, path_timeout):
     import collections
@@ -178,15 +234,24 @@ def chain(ci):
     return out[::-1]
 
 
-def fixpoint(cond_timeout=120.0, path_timeout=20.0, max_iter=200):
-    """Grow KNOWN with h_closed counterexamples until CrossHair confirms closure; then decide h_unambiguous over KNOWN."""
+def fixpoint(cond_timeout=120.0, path_timeout=20.0, max_iter=200, pool=False):
+    """Grow KNOWN with h_closed counterexamples until CrossHair confirms closure; then decide h_unambiguous over KNOWN.
+    pool=True: the token text ranges over POOL instead of all strings (fallback when the unbounded-text conditions are undecided)."""
     import time
     t0 = time.time()
     paths = 0
     iters = 0
+    f_closed, f_unamb = (h_closed_pool, h_unambiguous_pool) if pool else (h_closed, h_unambiguous)
+
+    def _fix(args):
+        if pool and isinstance(args, dict) and "vi" in args:
+            args = dict(args)
+            args["v"] = POOL[args.pop("vi")]
+        return args
     while True:
         iters += 1
-        st, args, msg, n = _analyze(h_closed, cond_timeout, path_timeout)
+        st, args, msg, n = _analyze(f_closed, cond_timeout, path_timeout)
+        args = _fix(args)
         paths += n
         if st == "refuted":
             if not isinstance(args, dict) or "__raw__" in args:
@@ -206,7 +271,8 @@ def fixpoint(cond_timeout=120.0, path_timeout=20.0, max_iter=200):
     # ambiguity over the reachable configurations; collect every distinct ambiguous (config, kind) class by excluding found ones
     ambiguous = []
     while True:
-        st, args, msg, n = _analyze(h_unambiguous, cond_timeout, path_timeout)
+        st, args, msg, n = _analyze(f_unamb, cond_timeout, path_timeout)
+        args = _fix(args)
         paths += n
         if st == "refuted":
             if not isinstance(args, dict) or "__raw__" in args:
@@ -227,7 +293,7 @@ def fixpoint(cond_timeout=120.0, path_timeout=20.0, max_iter=200):
         if st != "confirmed":
             return {"status": "inconclusive", "detail": "ambiguity: " + msg, "known": KNOWN, "paths": paths, "wall": time.time() - t0, "ambiguous": ambiguous}
         break
-    return {"status": "ok", "known": KNOWN, "closure_iterations": closure_iters, "ambiguous": ambiguous, "paths": paths, "wall": time.time() - t0,
+    return {"status": "ok", "text": ("pool of %d texts: %s" % (len(POOL), POOL)) if pool else "unbounded", "known": KNOWN, "closure_iterations": closure_iters, "ambiguous": ambiguous, "paths": paths, "wall": time.time() - t0,
             "states": len(A["states"]), "transitions": sum(len(s.transition) for s in A["states"]), "balanced": NBAL, "pair": A["pair"], "part": A["part"],
             "accepting_chain": [[str(TYPES[k]), v] for k, v in _accepting_chain()]}
 
